@@ -24,6 +24,14 @@ def sh(cmd, cwd=None, env=None, timeout=1800):
     return r.returncode, (r.stdout + r.stderr)
 
 
+def sh_out(cmd, cwd=None, env=None, timeout=1800):
+    """exit code and stdout only (library warnings go to stderr and must not be mistaken for the digest line)"""
+    e = dict(os.environ)
+    e.update(env or {})
+    r = subprocess.run(cmd, shell=True, cwd=cwd, env=e, capture_output=True, text=True, timeout=timeout)
+    return r.returncode, r.stdout
+
+
 def main():
     pid = sys.argv[1]
     checks_only = "--checks-only" in sys.argv
@@ -56,9 +64,9 @@ def main():
                     meta = {}
                 tcode, ttxt = sh(f"{PY} -m pytest -q -p no:cacheprovider --timeout=900 -x 2>&1 | tail -3", cwd=wt, env=env)
                 green = "61 passed" in ttxt and "failed" not in ttxt
-                c1, o1 = sh(f"{PY} {demo}", cwd=wt, env=env, timeout=900)
+                c1, o1 = sh_out(f"{PY} {demo}", cwd=wt, env=env, timeout=900)
                 sh("git checkout -- . && git clean -fdq", cwd=wt)
-                c0, o0 = sh(f"{PY} {demo}", cwd=wt, env=env, timeout=900)
+                c0, o0 = sh_out(f"{PY} {demo}", cwd=wt, env=env, timeout=900)
                 sh(f"git apply {patch}", cwd=wt)
                 last = lambda o: (o.strip().splitlines() or [""])[-1]
                 same = c0 == 0 and c1 == 0 and last(o0) == last(o1)
